@@ -26,7 +26,7 @@ func init() {
 			StatesMean:  "distinct complete schedules (executions) of the rewritten code; transitions = scheduling points granted",
 			Assumptions: []string{"sequentially consistent executions at the granularity of the hooked operations; unsynchronised accesses between hooks are the subject of the separate -race pass", "unbuffered channels are modelled as a rendezvous between a parked sender and the polling select", "the rewriting rules are syntactic and local (cmd/vrewrite); the rewritten package is the code that runs"},
 		},
-		QuickBudget: 75 * time.Second, ThoroughBudget: 14 * time.Minute, CrashIsViolation: true, ProcsPerWorker: 1, RacePass: true,
+		QuickBudget: 180 * time.Second, ThoroughBudget: 14 * time.Minute, CrashIsViolation: true, ProcsPerWorker: 1, RacePass: true,
 		Run: runC10,
 	})
 }
